@@ -335,8 +335,20 @@ func (pm *pathManager) doSetPathNotReady(pa *path) {
 	}
 }
 
+// findPathConf resolves a name requested by a reader or publisher.
+// the name is validated first, since conf.FindPathConf compares it with configuration keys,
+// that include regular expressions (~...), before checking it.
+func (pm *pathManager) findPathConf(name string) (*conf.Path, []string, error) {
+	err := conf.IsValidPathName(name)
+	if err != nil {
+		return nil, nil, fmt.Errorf("invalid path name: %w (%s)", err, name)
+	}
+
+	return conf.FindPathConf(pm.pathConfs, name)
+}
+
 func (pm *pathManager) doFindPathConf(req defs.PathFindPathConfReq) {
-	pathConf, _, err := conf.FindPathConf(pm.pathConfs, req.AccessRequest.Name)
+	pathConf, _, err := pm.findPathConf(req.AccessRequest.Name)
 	if err != nil {
 		req.Res <- defs.PathFindPathConfRes{Err: err}
 		return
@@ -355,7 +367,7 @@ func (pm *pathManager) doFindPathConf(req defs.PathFindPathConfReq) {
 }
 
 func (pm *pathManager) doDescribe(req defs.PathDescribeReq) {
-	pathConf, pathMatches, err := conf.FindPathConf(pm.pathConfs, req.AccessRequest.Name)
+	pathConf, pathMatches, err := pm.findPathConf(req.AccessRequest.Name)
 	if err != nil {
 		req.Res <- defs.PathDescribeRes{Err: err}
 		return
@@ -382,7 +394,7 @@ func (pm *pathManager) doDescribe(req defs.PathDescribeReq) {
 }
 
 func (pm *pathManager) doAddReader(req defs.PathAddReaderReq) {
-	pathConf, pathMatches, err := conf.FindPathConf(pm.pathConfs, req.AccessRequest.Name)
+	pathConf, pathMatches, err := pm.findPathConf(req.AccessRequest.Name)
 	if err != nil {
 		req.Res <- defs.PathAddReaderRes{Err: err}
 		return
@@ -415,7 +427,7 @@ func (pm *pathManager) doAddReader(req defs.PathAddReaderReq) {
 }
 
 func (pm *pathManager) doAddPublisher(req defs.PathAddPublisherReq) {
-	pathConf, pathMatches, err := conf.FindPathConf(pm.pathConfs, req.AccessRequest.Name)
+	pathConf, pathMatches, err := pm.findPathConf(req.AccessRequest.Name)
 	if err != nil {
 		req.Res <- defs.PathAddPublisherRes{Err: err}
 		return
